@@ -49,4 +49,44 @@ def matchListTop (name : List B) (delimStr : List B) (delimByte : Option B) (ref
     | none => false
     | some rest => matchList delimByte pattern rest
 
+/-! ### repaired matcher (fix: '%' stops where the delimiter STRING starts)
+
+  As shipped the loop tested `string(name[j]) == delim`, which converts one BYTE to a rune: for a
+  delimiter above U+00FF the test is never true ('%' crossed delimiters), for U+0080..U+00FF it is
+  true at any byte equal to the rune's number (a continuation byte of some other character).  The
+  definitions above (`expand`, `matchList`, `matchListTop` with `delimByte`) mirror that code and are
+  kept for the single-byte theorems and the Legacy counterexamples; the definitions below mirror the
+  repaired code, `delim != "" && strings.HasPrefix(name[j:], delim)`. -/
+
+/-- strings.HasPrefix(s, p) -/
+def hasPrefix (p s : List B) : Bool := (stripPrefix? p s).isSome
+
+/-- the `for j` loop of the repaired matchList -/
+def expandS (delim : List B) (pct : Bool) (k : List B → Bool) : List B → Bool
+  | [] => k []
+  | n :: ns =>
+    if pct && !delim.isEmpty && hasPrefix delim (n :: ns) then k (n :: ns)
+    else k (n :: ns) || expandS delim pct k ns
+
+/-- repaired list.go matchList; `delim` is the delimiter string ([] when there is none) -/
+def matchListS (delim : List B) : List B → List B → Bool   -- pattern, name
+  | [], name => name.isEmpty
+  | c :: ps, name =>
+    if isWild c then expandS delim (c = 37) (matchListS delim ps) name
+    else match name with
+      | [] => false
+      | n :: ns => n = c && matchListS delim ps ns
+
+/-- repaired list.go MatchList -/
+def matchListTopS (name : List B) (delimStr : List B) (reference pattern : List B) : Bool :=
+  let stripped := if delimStr.isEmpty then none else stripPrefix? delimStr pattern
+  let reference := if stripped.isSome then [] else reference
+  let pattern := match stripped with | some p => p | none => pattern
+  if reference.isEmpty then matchListS delimStr pattern name
+  else
+    let reference := if !delimStr.isEmpty && !hasSuffix reference delimStr then reference ++ delimStr else reference
+    match stripPrefix? reference name with
+    | none => false
+    | some rest => matchListS delimStr pattern rest
+
 end GoImap.ListMatch
